@@ -12,8 +12,9 @@ pub struct Q {
 }
 
 fn gcd(mut a: i128, mut b: i128) -> i128 {
-    if a < 0 { a = -a; }
-    if b < 0 { b = -b; }
+    // (i128::MIN has no negation: that is an overflow of the harness arithmetic like any other, not a panic of its own)
+    if a < 0 { a = a.checked_neg().unwrap_or_else(|| ovf()); }
+    if b < 0 { b = b.checked_neg().unwrap_or_else(|| ovf()); }
     while b != 0 {
         let t = a % b;
         a = b;
